@@ -197,7 +197,8 @@ fn new_req<E: FromServerFnError>(
 }
 
 impl<E: FromServerFnError> ClientReq<E> for LoopReq {
-    type FormData = Vec<(String, String)>;
+    // (the multipart codec's IntoReq is only implemented for clients with this form type)
+    type FormData = server_fn::request::browser::BrowserFormData;
 
     fn try_new_req_query(
         path: &str,
@@ -233,10 +234,9 @@ impl<E: FromServerFnError> ClientReq<E> for LoopReq {
         body: Self::FormData,
         method: Method,
     ) -> Result<Self, E> {
-        let text = url::form_urlencoded::Serializer::new(String::new())
-            .extend_pairs(body)
-            .finish();
-        new_req(path, None, content_type, accepts, LoopBody::Full(Bytes::from(text)), method)
+        let _ = (path, accepts, content_type, body, method);
+        Err(ServerFnErrorErr::Request("browser form data is not supported by the loopback client".into())
+            .into_app_error())
     }
     fn try_new_req_multipart(
         _path: &str,
